@@ -1,12 +1,26 @@
 #!/bin/bash
-# thorough tier: 60 s per obligation, all three back ends must agree, then the must-fail /
-# must-pass corpus for the property on scratch copies (sensitivity report, never gating).
+# thorough tier:
+#  1. every obligation of the property with 60 s limits, all three back ends must agree;
+#  2. (report only) the scenario drivers of the property - replays of the defects found so far -
+#     run against the real code of /repo through go test -overlay;
+#  3. (report only) the must-fail corpus of the property on scratch copies of /repo.
+# Only step 1 decides the exit code.
 set -u
 cd "$(dirname "$0")"
 PROP="$1"
 bin/sonicvc check --property "$PROP" --tier thorough
 rc=$?
-if [ -x selftest/run.sh ]; then
-  selftest/run.sh "$PROP" || true
+nn=$(echo "$PROP" | tr 'C' 'c')
+pkgdir() { case "$1" in sonic) echo . ;; websocket) echo codec/websocket ;; ipv4) echo net/ipv4 ;; frame) echo codec/frame ;; *) echo . ;; esac; }
+for f in scenarios/${nn}_*_test.go; do
+  [ -f "$f" ] || continue
+  case "$f" in *helper_test.go) continue ;; esac
+  pk=$(grep -m1 '^package' "$f" | awk '{print $2}')
+  res=$(./run_scenario.sh "$f" "$(pkgdir $pk)" 2>&1 | grep -E "^(--- |ok|FAIL|PASS)" | head -3 | tr '\n' ' ')
+  echo "scenario $f: $res"
+done
+if [ -x selftest/run.sh ] && ls seeded | grep -q "^$PROP-"; then
+  echo "must-fail corpus for $PROP (on scratch copies of /repo):"
+  selftest/run.sh "$PROP" | sed 's/^/  /' || true
 fi
 exit $rc
